@@ -89,6 +89,7 @@ def main():
             rdir_base = os.path.join(vlib.VERIF, "replays", pid)
             os.makedirs(rdir_base, exist_ok=True)
             seen_q = {}
+            violations.sort(key=lambda v: (v[0].q.name, 0 if vlib.classify_prop(v[1])[0] == "assert" else 1))
             for (r, p, key) in violations:
                 n = seen_q.get(r.q.name, 0)
                 seen_q[r.q.name] = n + 1
@@ -110,7 +111,7 @@ def main():
                             with open(os.path.join(cdir, "replay_init.inc"), "w") as f:
                                 for lhs, d in vals.items():
                                     lit = vlib.c_literal(d)
-                                    if lit is not None and lhs != "in":
+                                    if lit is not None and lhs != "in" and "$" not in lhs:
                                         f.write("%s = %s;\n" % (lhs, lit))
                             st, tail = vlib.native_replay(r.q, cdir, "replay_init.inc")
                             rec["native_replay"] = st; rec["native_output_tail"] = tail
@@ -119,8 +120,11 @@ def main():
                 with open(path, "w") as f:
                     json.dump(rec, f, indent=1)
                 vio_records.append(rec)
-                print("VIOLATION property=%s replay=%s  # %s: %s [%s] native=%s" % (
-                    pid, path, r.q.name, p.get("description"), p.get("property"), rec["native_replay"]), flush=True)
+                if n < 4:
+                    print("VIOLATION property=%s replay=%s  # %s: %s [%s] native=%s" % (
+                        pid, path, r.q.name, p.get("description"), p.get("property"), rec["native_replay"]), flush=True)
+                elif n == 4:
+                    print("  (further failing conditions of %s are recorded under %s)" % (r.q.name, rdir_base), flush=True)
             rc = 1
         if problems:
             for pr in problems:
@@ -200,7 +204,7 @@ def do_replay(pid, path):
         with open(os.path.join(cdir, "replay_init.inc"), "w") as f:
             for lhs, d in rec["inputs"].items():
                 lit = vlib.c_literal(d)
-                if lit is not None and lhs != "in":
+                if lit is not None and lhs != "in" and "$" not in lhs:
                     f.write("%s = %s;\n" % (lhs, lit))
         st, tail = vlib.native_replay(q, cdir, "replay_init.inc")
         print("replay of %s on current tree: %s" % (path, st)); print(tail)
